@@ -149,6 +149,46 @@ def matchPolicies (a : Attrs) : List Policy → Option Nat
   | [] => none
   | p :: ps => if policyMatches a p then some 0 else (matchPolicies a ps).map (· + 1)
 
+/-! ## `ClusterInfo.MatchAttributes` (pkg/clusters/clusterinfo.go): what a matched request is routed under -/
+
+def logOn : Str := Str.ofString "on"
+def logOff : Str := Str.ofString "off"
+def systemDefault : Str := Str.ofString "system-default"
+
+/-- `isLogEnabled(upstream, policy)` -/
+def isLogEnabled (upstream policy : Str) : Bool :=
+  if upstream == logOff || policy == logOff then false
+  else if upstream == logOn || policy == logOn then true
+  else false
+
+/-- the fields of a `DispatchPolicy` that `MatchAttributes` reads -/
+structure PolicyCfg where
+  rules : Policy
+  flowControlSchemaName : Str
+  upstreamSubset : List Str
+  logMode : Str
+deriving Repr
+
+structure Picker where
+  policy : Nat               -- index of the policy the request is handled under
+  flowControlName : Str
+  upstreams : List Str
+  enableLog : Bool
+deriving Repr, DecidableEq
+
+/-- `MatchAttributes`: `none` is `ErrNoRouterRuleMatches` -/
+def matchAttributes (a : Attrs) (ps : List PolicyCfg) (allEndpoints : List Str) (loggingMode : Str) : Option Picker :=
+  match matchPolicies a (ps.map (·.rules)) with
+  | none => none
+  | some i =>
+    match ps[i]? with
+    | none => none
+    | some p => some
+      { policy := i
+        flowControlName := if p.flowControlSchemaName.length == 0 then systemDefault else p.flowControlSchemaName
+        upstreams := if p.upstreamSubset.length != 0 then p.upstreamSubset else allEndpoints
+        enableLog := isLogEnabled loggingMode p.logMode }
+
 /-! ## Admission normaliser (plugin/admission/upstreamcluster/admission.go) -/
 
 def normLoop : List Str → List Str → List Str → List Str × List Str × Bool
